@@ -39,7 +39,7 @@ structure BoardOk (b : Board) (w : Bool) (ep c : Nat) : Prop where
   valid : ∀ t q, t < 64 → b t = some q → q < 12
   pawns : ∀ t, t < 64 → (b t = some WP ∨ b t = some BP) → 8 ≤ t ∧ t < 56
   epLe : ep ≤ 64
-  epOk : ep ≠ 64 → b ep = none ∧ (w = true → ep + 8 < 64 ∧ b (ep + 8) = some BP) ∧ (w = false → 8 ≤ ep ∧ b (ep - 8) = some WP)
+  epOk : ep ≠ 64 → b ep = none ∧ (w = true → 8 ≤ ep ∧ ep + 8 < 64 ∧ b (ep + 8) = some BP) ∧ (w = false → 8 ≤ ep ∧ ep < 56 ∧ b (ep - 8) = some WP)
   castle1 : c &&& 1 ≠ 0 → b 60 = some WK ∧ b 63 = some WR
   castle2 : c &&& 2 ≠ 0 → b 60 = some WK ∧ b 56 = some WR
   castle4 : c &&& 4 ≠ 0 → b 4 = some BK ∧ b 7 = some BR
@@ -498,13 +498,16 @@ theorem applyB_ok {b : Board} {w : Bool} {m : Move} {ep c : Nat} (ok : BoardOk b
     have hef := fits.ep_cap hc
     have hto : applyB b w m m.toSq = some m.piece := by
       rw [applyB_to fits]; unfold landed; rw [if_neg (by simp [hpn])]
+    have hfr : 8 ≤ m.fromSq ∧ m.fromSq < 56 := by
+      apply ok.pawns m.fromSq hfl
+      rw [fits.src, hpw]; cases w <;> simp
     rw [hdp]
     simp only [if_true]
     cases w
     · -- black pushed: the square is `to - 8`
       obtain ⟨h16, hmid⟩ := hb rfl
       simp only [Bool.false_eq_true, if_false, Bool.not_false] at hpw ⊢
-      refine ⟨?_, fun _ => ⟨by omega, ?_⟩, fun h => absurd h (by simp)⟩
+      refine ⟨?_, fun _ => ⟨by omega, by omega, ?_⟩, fun h => absurd h (by simp)⟩
       · rw [applyB_plain hef hcs, Board.set_ne _ _ _ _ (by omega)]
         by_cases hf : m.toSq - 8 = m.fromSq
         · rw [hf, Board.set_same]
@@ -513,7 +516,7 @@ theorem applyB_ok {b : Board} {w : Bool} {m : Move} {ep c : Nat} (ok : BoardOk b
     · -- white pushed: the square is `to + 8`
       obtain ⟨h16, hmid⟩ := hw rfl
       simp only [if_true, Bool.not_true] at hpw ⊢
-      refine ⟨?_, fun h => absurd h (by simp), fun _ => ⟨by omega, ?_⟩⟩
+      refine ⟨?_, fun h => absurd h (by simp), fun _ => ⟨by omega, by omega, ?_⟩⟩
       · rw [applyB_plain hef hcs, Board.set_ne _ _ _ _ (by omega)]
         by_cases hf : m.toSq + 8 = m.fromSq
         · rw [hf, Board.set_same]
